@@ -14,6 +14,20 @@ func e0Profile(prop string, checks ...string) *Profile {
 
 var Props = map[string]PropRunner{
 	"C20": RunE3,
+	"C13": func(r *Run) { RunE1(r, "C13") },
+	"C14": func(r *Run) { RunE1(r, "C14") },
+	"C17": func(r *Run) {
+		p := e0Profile("C17", "C17")
+		p.Weights[opAppend] = 40
+		p.Weights[opPublish] = 12
+		p.Weights[opCrash] = 5
+		p.Weights[opRestart] = 6
+		p.Weights[opCrashAll] = 4
+		p.Weights[opAlgebra] = 0
+		p.Weights[opSpecial] = 0
+		p.CodecSwarm = true
+		RunE0(r, p)
+	},
 	"C09": RunC09,
 	"C10": RunC10,
 	"C11": RunC11,
